@@ -83,6 +83,9 @@ def gen_plan(rng, profile: dict, seed: int) -> dict:
         "spec_x": gen_spec(rng, D), "spec_y": gen_spec(rng, D),
         "epochs": rng.randint(1, 6), "key": rng.getrandbits(31),
         "val": rng.random() < 0.5, "Lval": Lval, "is_torus": rng.random() < 0.5,
+        # a transient failure of one training step (the unchanged loop lets it escape; a loop that retries must still
+        # deliver every sample at most once per epoch, with inputs and targets aligned)
+        "step_fault_at": rng.choice([None, None, None, rng.randint(2, 12)]),
     }
 
 
@@ -247,6 +250,27 @@ def execute(plan: dict, ctx: dict) -> dict:
                 losses.append((None if train_loss is None else float(train_loss), None if val_loss is None else float(val_loss)))
                 return super().stop(model, current_epoch, train_loss, val_loss, epoch_time)
 
+        # seam around the real train_step: which samples are actually consumed, in which epoch; optional transient fault
+        consumed: list = []  # (epoch index, x sample indices, y sample indices)
+        real_train_step = training.train_step
+        step_counter = {"n": 0, "faulted": False}
+        kx, px, cx = plan["spec_x"][0]
+        ky, py, cy = plan["spec_y"][0]
+
+        def train_step_seam(map_and_loss, model, optim, opt_state, xb, yb, aux_data=None):
+            world.seam("train_step")
+            step_counter["n"] += 1
+            if plan.get("step_fault_at") == step_counter["n"] and not step_counter["faulted"]:
+                step_counter["faulted"] = True
+                world.faults.hit("transient_step_error")
+                raise RuntimeError("transient device error (simulated)")
+            xi = index_tensor(np.asarray(xb[(kx, px)]), cx, 2, 2 * kx + px)
+            yi = index_tensor(np.asarray(yb[(ky, py)]), cy, 2, 2 * ky + py)
+            consumed.append((len(losses), None if xi is None else xi.reshape(-1).tolist(), None if yi is None else yi.reshape(-1).tolist()))
+            return real_train_step(map_and_loss, model, optim, opt_state, xb, yb, aux_data)
+
+        training.train_step = train_step_seam
+        aborted = False
         with world, capture_stdout():
             try:
                 training.train(
@@ -254,7 +278,27 @@ def execute(plan: dict, ctx: dict) -> dict:
                     optax.sgd(0.1), validation_X=VX, validation_Y=VY, devices=devices(ndev),
                 )
             except Exception as e:
-                viol("raises", f"{type(e).__name__}: {str(e)[:300]}", site)
+                if step_counter["faulted"] and "transient device error" in str(e):
+                    aborted = True
+                    bump("aborted_by_injected_step_error")
+                else:
+                    viol("raises", f"{type(e).__name__}: {str(e)[:300]}", site)
+            finally:
+                training.train_step = real_train_step
+        if step_counter["faulted"] and not aborted:
+            bump("survived_injected_step_error")
+        # what the loop consumed, epoch by epoch: aligned, and no sample twice within an epoch
+        by_epoch: dict = {}
+        for ep, xi, yi in consumed:
+            evals += 1
+            if xi is None or yi is None or xi != yi:
+                viol("alignment", {"epoch": ep, "x_indices": xi, "y_indices": yi}, site + "/consumed")
+                break
+            by_epoch.setdefault(ep, []).extend(xi)
+        for ep, idxs in sorted(by_epoch.items()):
+            if len(set(idxs)) != len(idxs):
+                viol("index_twice", {"epoch": ep, "consumed_indices": idxs}, site + "/consumed")
+                break
         perms = []
         for multi_images, bs, nokey, nd, out in calls:
             evals += 1
@@ -288,7 +332,7 @@ def execute(plan: dict, ctx: dict) -> dict:
         "digest": world.log.digest(),
         "evaluations": evals,
         "counters": counters,
-        "faults": {k: v for k, v in counters.items() if k.startswith("pre_transport_")},
+        "faults": {**{k: v for k, v in counters.items() if k.startswith("pre_transport_")}, **dict(world.faults)},
         "shape": shape_hash(kinds + [str(L), str(B)]),
         "kinds": kinds,
         "nontrivial": ndev > 1 or L % B != 0 or plan.get("key") is not None,
